@@ -85,6 +85,15 @@ void unit_composite() {
         BCPR s(amgcl::adapter::block_matrix<blk>(A), prm);
         std::vector<amgcl::static_matrix<double, 2, 1> > brhs, bx;
         (void)s(brhs, bx);
+        s.precond().partial_update(amgcl::adapter::block_matrix<blk>(A), true);      // block-valued update_transfer
+    }
+    {
+        typedef amgcl::make_solver<amgcl::preconditioner::cpr_drs<PPrecond, BSPrecond>, amgcl::runtime::solver::wrapper<BB> > BCPRDRS;
+        boost::property_tree::ptree prm;
+        BCPRDRS s(amgcl::adapter::block_matrix<blk>(A), prm);
+        std::vector<amgcl::static_matrix<double, 2, 1> > brhs, bx;
+        (void)s(brhs, bx);
+        s.precond().partial_update(amgcl::adapter::block_matrix<blk>(A), true);
     }
 
     // make_block_solver on a scalar user matrix (C17 / C13: the block adapter must only ever see sorted rows)
